@@ -283,8 +283,8 @@ RECURSIVE DigitsVal(_, _)
 DigitsVal(s, acc) == IF s = <<>> THEN acc ELSE DigitsVal(Tail(s), acc * 10 + (s[1] - 48))
 
 (* a decimal numeral [+-]ddd[.ddd] (or .ddd) as a fixed-point integer with k   *)
-(* decimals, rounded half away from zero; ok = 0 if not such a numeral or too   *)
-(* large for this decoder (integer part of more than 4 digits)                  *)
+(* decimals, rounded half away from zero; ok = 0 if not such a numeral, ok = 2  *)
+(* if it is one but too large for this decoder (integer part of > 4 digits)     *)
 DecodeNum(s0, k) ==
   LET neg == s0 # <<>> /\ s0[1] = 45
       s   == IF s0 # <<>> /\ s0[1] \in {43, 45} THEN Tail(s0) ELSE s0
@@ -296,8 +296,8 @@ DecodeNum(s0, k) ==
              /\ \A i \in DOMAIN fp : IsDigit(fp[i])
              /\ (dot > Len(s) \/ fp # <<>>)
              /\ (ip # <<>> \/ fp # <<>>)
-             /\ Len(ip) <= 4
   IN IF ~okc THEN [ok |-> 0, v |-> 0]
+     ELSE IF Len(ip) > 4 THEN [ok |-> 2, v |-> 0]          \* a numeral, but beyond this decoder: certainly out of every channel range
      ELSE LET iv  == DigitsVal(ip, 0)
               fk  == [i \in 1..k |-> IF i <= Len(fp) THEN fp[i] ELSE 48]
               fv  == DigitsVal(fk, 0)
@@ -341,6 +341,7 @@ DenotesAlpha(s) ==
   LET su == SplitUnit(s)
       n  == DecodeNum(su[1], IF su[2] = "%" THEN 4 ELSE 6) IN
   IF n.ok = 0 \/ su[2] \notin {"", "%"} THEN [ok |-> 0, v |-> 0]
+  ELSE IF n.ok = 2 THEN [ok |-> 2, v |-> 0]
   ELSE [ok |-> 1, v |-> Clamp(n.v, 0, A1)]      \* 50% with 4 decimals = 500000 micro-units
 
 DenotesFunc(name, fields) ==      \* legacy comma syntax
@@ -353,6 +354,7 @@ DenotesFunc(name, fields) ==      \* legacy comma syntax
         u(i) == SplitUnit(fields[i])
         f(i) == DecodeNum(u(i)[1], 3) IN
     IF al.ok = 0 \/ \E i \in 1..3 : f(i).ok = 0 THEN NotColor
+    ELSE IF al.ok = 2 \/ \E i \in 1..3 : f(i).ok = 2 THEN Outside      \* e.g. hsl(195, 122840%, 99.99%): far outside the range
     ELSE IF isRgb THEN
         IF \A i \in 1..3 : u(i)[2] = "" THEN
              Rgba(Clamp(f(1).v, 0, CH), Clamp(f(2).v, 0, CH), Clamp(f(3).v, 0, CH), al.v)
